@@ -19,6 +19,11 @@ Oracles (all comparisons of the real code's output with its own earlier output):
 * **repeat**: compiling twice gives the same SQL and params.
 * **copies**: ``copy.copy``, ``_clone()``, ``_generate()``, ``cloned_traverse``,
   ``replacement_traverse`` and a pickle round trip compile to the recorded value.
+* **compile first, derive afterwards**: every builder call is recorded (random state + literal counter) so a
+  never compiled *twin* of any node can be rebuilt.  A node derived from compiled ancestors must compile like
+  its twin chain; a transforming copy of a compiled statement (cloned_traverse giving binds new values,
+  ClauseAdapter to an alias, replacement_traverse of a column, _annotate / _deannotate, pickle) must compile
+  like the same copy of the twin.
 * **compile does not modify**: a shallow snapshot of ``__dict__`` of every element
   reachable from the statement is taken before the first compilation and compared after
   compiling on all dialects: attributes that existed before must still be bound to the
@@ -59,7 +64,7 @@ META = {
     "modes": ["cext", "purepy"],
     "soft_s": {"quick": 90, "thorough": 800},
     "exhaustive": {"quick": False, "thorough": False},
-    "require": ["ancestor_rechecks", "branch_points", "copies_checked", "dict_snapshots_compared", "pickle_roundtrips", "query_trees"],
+    "require": ["ancestor_rechecks", "branch_points", "copies_checked", "dict_snapshots_compared", "pickle_roundtrips", "query_trees", "twin_chains_compared", "transformed_copies_compared"],
     "assumptions": ["the first compilation of a freshly created statement is its reference value"],
 }
 
@@ -152,6 +157,21 @@ def _key_diff_attr(k0, k1):
     r = walk(k0[0], k1[0]) or ("bind-values" if k0[1:] != k1[1:] else "unknown")
     # only traversal attribute names may become part of a mechanism (never user-chosen names such as aliases)
     return r if (r.startswith("_") or r in ("dialect_options", "bind-values", "unknown", "none-vs-key")) else "structure"
+
+
+def _dialect_option_values(stmt):
+    """user-specified dialect options of every element reachable from a statement"""
+    from sqlalchemy.sql import visitors
+
+    out = []
+    try:
+        for el in visitors.iterate(stmt):
+            d = getattr(el, "__dict__", {}).get("dialect_options")
+            if d:
+                out.append(sorted((dn, sorted((k, repr(v)) for k, v in getattr(ad, "_non_defaults", {}).items())) for dn, ad in d.items()))
+    except Exception:
+        pass
+    return repr(out)
 
 
 def _shares_dialect_options(stmt, later):
@@ -247,6 +267,7 @@ def _snap_diff(snap):
 def run(ctx):
     import copy
     import pickle
+    import random
     import warnings
 
     from sqlalchemy import exc as sa_exc
@@ -274,25 +295,43 @@ def run(ctx):
         if not ctx.budget_ok():
             break
         vals = G.Vals(ti % 20, salt=ti)
+
+        def replay(fn_, st_rng, st_i, *args):
+            """call a builder again from the recorded random / literal state: a fresh, never compiled twin"""
+            r2 = random.Random()
+            r2.setstate(st_rng)
+            v2 = G.Vals(vals.j, vals.salt)
+            v2.i = st_i
+            return fn_(*args, r2, v2)
+
         if rng.random() < 0.25:
             # richer base statements (window functions, VALUES, LATERAL, recursive CTE, DML in CTE, upserts, ORM ...)
             rname = rng.choice(recipe_names)
+            st0 = (rng.getstate(), vals.i)
             try:
                 base = recipes[rname](rng, vals)
             except (sa_exc.SQLAlchemyError, NotImplementedError):
                 continue
             spec = {"k": G.stmt_kind(base), "recipe": rname}
             ctx.seen("recipe_bases", rname)
+            rebuild_base = (lambda rname=rname, st0=st0: replay(recipes[rname], st0[0], st0[1]))
         else:
-            # text() constructs get their own share: bindparams()/columns() along different branches
-            spec = g.text() if rng.random() < 0.12 else g.stmt()
+            # text() constructs and compound selects get their own share
+            c_ = rng.random()
+            spec = g.text() if c_ < 0.12 else g.compound() if c_ < 0.24 else g.stmt()
+            st0 = vals.i
             try:
                 base, _b = G.build(env, spec, vals)
             except G.Inapplicable:
                 continue
+
+            def rebuild_base(spec=spec, st0=st0):
+                v2 = G.Vals(vals.j, vals.salt)
+                v2.i = st0
+                return G.build(env, spec, v2)[0]
         nodes = []  # dict(stmt, value{dn:..}, key, parent, op)
 
-        def add(stmt, parent, opname):
+        def add(stmt, parent, opname, rebuild=None):
             # compile-does-not-modify: snapshot, compile everywhere, compare
             key0 = _fresh_key(stmt)
             snap = _snap(stmt)
@@ -328,7 +367,8 @@ def run(ctx):
                               f"compilers responsible: {culprits}); statement made by {opname}",
                               {"spec": spec, "op": opname, "attribute": attr, "dialects": culprits,
                                "ops": [(m["parent"], m["op"]) for m in nodes] + [(parent, opname)]})
-            nodes.append({"stmt": stmt, "value": value, "key": _strip(key1), "parent": parent, "op": opname, "children": 0, "dirty": False})
+            nodes.append({"stmt": stmt, "value": value, "key": _strip(key1), "parent": parent, "op": opname, "children": 0, "dirty": False,
+                          "rebuild": rebuild, "dopts": _dialect_option_values(stmt)})
             return len(nodes) - 1
 
         def recheck(i, dn_list, when):
@@ -349,7 +389,9 @@ def run(ctx):
                     later = [m["op"] for m in nodes[i + 1:]]
                     culprit = later[-1] if later else "recompile"
                     what = "sql" if now[0] != n["value"][dn][0] else "params"
-                    shared = _shares_dialect_options(n["stmt"], [m["stmt"] for m in nodes[i + 1:]])
+                    # the (fixed) shared-registry defect: the statement's own user-specified dialect options changed
+                    shared = (_dialect_option_values(n["stmt"]) != n["dopts"]
+                              and _shares_dialect_options(n["stmt"], [m["stmt"] for m in nodes[i + 1:]]))
                     mech = (f"earlier-statement-{what}-changed:shared-dialect_options-mutated-by-generative-call" if shared
                             else f"earlier-statement-{what}-changed-after:{culprit}")
                     ctx.violation(
@@ -373,7 +415,7 @@ def run(ctx):
                 return False
             return True
 
-        add(base, None, "base:" + spec["k"])
+        add(base, None, "base:" + spec["k"], rebuild_base)
         steps = rng.randint(2, maxlen)
         for step in range(steps):
             pi = len(nodes) - 1 if rng.random() < 0.65 else rng.randrange(len(nodes))
@@ -387,6 +429,7 @@ def run(ctx):
             new = None
             for _try in range(4):
                 name, fn = rng.choice(ops)
+                st_op = (rng.getstate(), vals.i)
                 try:
                     new = fn(parent, rng, vals)
                     break
@@ -402,7 +445,7 @@ def run(ctx):
                 continue
             ctx.seen("ops_applied", kind + "." + name)
             nodes[pi]["children"] += 1
-            add(new, pi, name)
+            add(new, pi, name, (lambda pi=pi, fn=fn, st_op=st_op: replay(fn, st_op[0], st_op[1], nodes[pi]["rebuild"]())))
             dn = dnames[(ti + step) % len(dnames)]
             ok = True
             for i in range(len(nodes) - 1):
@@ -465,6 +508,7 @@ def run(ctx):
                         break
             # the copies must not have disturbed the original either
             recheck(i, [dnames[i % len(dnames)]], "after copying it")
+        _twin_checks(ctx, env, G, ds, dnames, nodes, spec, rng, _value, sa_exc)
         branch = sum(1 for n in nodes if n["children"] >= 2)
         ctx.count("branch_points", branch)
         kinds = {n["op"] for n in nodes[1:]}
@@ -559,3 +603,117 @@ def query_trees(ctx, env, G, ds, dnames):
                      nontrivial=branch > 0 or len({n["op"] for n in nodes[1:]}) >= 3)
     finally:
         session.close()
+
+
+def _transformations(env, G, rng_seed):
+    """(name, fn(stmt) -> transformed copy) : copies that *change* something inside the statement"""
+    import pickle
+    import random
+
+    from sqlalchemy.sql import util as sql_util
+    from sqlalchemy.sql import visitors
+
+    T = env.tables
+
+    def shift_binds(st):
+        def visit(bp):
+            if isinstance(bp.value, int) and not isinstance(bp.value, bool):
+                bp.value = bp.value + 1000
+            elif isinstance(bp.value, str):
+                bp.value = bp.value + "~"
+        return visitors.cloned_traverse(st, {}, {"bindparam": visit})
+
+    def adapt_to_alias(st):
+        r = random.Random(rng_seed)
+        present = [k for k in sorted(T) if any(el is T[k] for el in visitors.iterate(st))]
+        if not present:
+            raise G.Inapplicable()
+        k = r.choice(present)
+        return sql_util.ClauseAdapter(T[k].alias("adp")).traverse(st)
+
+    def replace_column(st):
+        r = random.Random(rng_seed)
+        k = r.choice(sorted(T))
+        cols = [c for c in T[k].c if c.name != "id"]
+        a, b = r.sample(cols, 2)
+
+        def replace(el, **kw):
+            return b if el is a else None
+        return visitors.replacement_traverse(st, {}, replace)
+
+    def annotate(st):
+        return st._annotate({"vf_marker": rng_seed})
+
+    def deannotate(st):
+        return st._deannotate()
+
+    def pickled(st):
+        return pickle.loads(pickle.dumps(st))
+
+    return [("cloned_traverse-new-bind-values", shift_binds), ("ClauseAdapter-to-alias", adapt_to_alias),
+            ("replacement_traverse-column", replace_column), ("annotate", annotate), ("deannotate", deannotate), ("pickle", pickled)]
+
+
+def _twin_checks(ctx, env, G, ds, dnames, nodes, spec, rng, _value, sa_exc):
+    """Compile first, derive afterwards: (1) a node that was derived from already compiled ancestors must compile
+    like the same chain rebuilt from scratch without any intermediate compilation; (2) a transforming copy
+    (new bind values, adaptation to an alias, column replacement, (de)annotation, pickle) of a statement that has
+    been compiled must compile like the same copy of its never compiled twin."""
+    live = [i for i, n in enumerate(nodes) if not n["dirty"] and n["rebuild"] is not None]
+    if not live:
+        return
+    try:
+        twin0 = nodes[0]["rebuild"]()
+    except (G.Inapplicable, sa_exc.SQLAlchemyError):
+        return
+    if {dn: _value(twin0, ds[dn]) for dn in dnames} != nodes[0]["value"]:
+        ctx.count("twin_rebuild_not_reproducible")   # the harness cannot rebuild this base deterministically: no claim
+        return
+    pick = sorted({live[-1], rng.choice(live)})
+    for i in pick:
+        n = nodes[i]
+        try:
+            fresh = n["rebuild"]()
+        except (G.Inapplicable, sa_exc.SQLAlchemyError):
+            ctx.count("twin_rebuild_rejected")
+            continue
+        ctx.count("twin_chains_compared")
+        for dn in dnames:
+            got = _value(fresh, ds[dn])
+            if got != n["value"][dn]:
+                ctx.violation(
+                    f"derived-from-compiled-differs-from-fresh:{n['op']}",
+                    f"{dn}: statement #{i} (made by {n['op']} from ancestors that had been compiled) compiles to "
+                    f"{n['value'][dn]!r:.300}; the same chain built without intermediate compilation gives {got!r:.300}",
+                    {"spec": spec, "node": i, "ops": [(m["parent"], m["op"]) for m in nodes], "dialect": dn,
+                     "compiled_chain": n["value"][dn], "fresh_chain": got})
+                break
+        # (2) transforming copies: compiled original vs never compiled twin
+        seed = rng.randrange(1 << 30)
+        for tname, tf in _transformations(env, G, seed):
+            try:
+                twin = n["rebuild"]()      # never compiled
+                a = tf(n["stmt"])
+                b = tf(twin)
+            except (G.Inapplicable, sa_exc.SQLAlchemyError):
+                continue
+            except Exception as e:
+                if tname == "pickle":
+                    ctx.count("pickle_errors")
+                    continue
+                ctx.count("transformation_internal_errors")
+                ctx.seen("transformation_internal_errors", f"{tname}:{type(e).__name__}")
+                continue
+            ctx.count("transformed_copies_compared")
+            ctx.seen("transformations", tname)
+            for dn in dnames:
+                va, vb = _value(a, ds[dn]), _value(b, ds[dn])
+                if va != vb:
+                    what = "sql" if va[0] != vb[0] else "params"
+                    ctx.violation(
+                        f"transformed-copy-of-compiled-differs-from-fresh:{tname}:{what}",
+                        f"{dn}: {tname} of statement #{i} ({n['op']}) after it had been compiled gives {va!r:.300}; the same "
+                        f"transformation of its never compiled twin gives {vb!r:.300}",
+                        {"spec": spec, "node": i, "ops": [(m["parent"], m["op"]) for m in nodes], "dialect": dn,
+                         "from_compiled": va, "from_fresh": vb, "transformation": tname})
+                    break
